@@ -219,4 +219,13 @@ Fixpoint chk_gsteps (calls : list (nat * list nat)) (unc : list nat) (k : Z) (ms
       let okruns := forallb (fun kr : nat * nat => Nat.eqb (gcount (fst kr) (gruns ms')) (snd kr)) (g_runs s) in
       if negb (okout && okdone && okruns) then 2 + 10 * (k + 1) else chk_gsteps calls unc (k + 1) ms' ss'
   end.
-Definition chk_gen (c : gcase) : Z := chk_gsteps (fst (fst c)) (snd (fst c)) 0 ginit (snd c).
+(* the whole history through the specification first (as for module histories): a cache that differs from the model's at
+   an early call must not hide what a later call returns *)
+Fixpoint gspec_only (k : Z) (ss : list gstepc) : Z :=
+  match ss with
+  | [] => 0
+  | s :: ss' => if negb (gspec s) then 1 + 10 * (k + 1) else gspec_only (k + 1) ss'
+  end.
+Definition chk_gen (c : gcase) : Z :=
+  let c1 := gspec_only 0 (snd c) in
+  if c1 =? 0 then chk_gsteps (fst (fst c)) (snd (fst c)) 0 ginit (snd c) else c1.
